@@ -16,16 +16,17 @@ Gaps == {0, 5}
 GapPoss == IF Tier = "q" THEN {1} ELSE {1, 2}
 
 ZPs(ss) == IF \E k \in 1..Len(ss) : ss[k].size = 0 THEN {"zero", "pos"} ELSE {"zero"}
-Lay(bits, lf, ss, sl, gp, gq, tr, ce, zp) == [bits |-> bits, lfanew |-> lf, secs |-> ss, slack |-> sl, gap |-> gp, gappos |-> (IF gp = 0 THEN 1 ELSE gq),
+Lay(bits, lf, ss, sl, gp, gq, tr, ce, zp, nd) == [ndirs |-> nd, bits |-> bits, lfanew |-> lf, secs |-> ss, slack |-> sl, gap |-> gp, gappos |-> (IF gp = 0 THEN 1 ELSE gq),
                                              trail |-> tr, cert |-> ce, zptr |-> zp]
-Layouts(bits) == UNION {{Lay(bits, lf, ss, sl, gp, gq, tr, ce, zp) : zp \in ZPs(ss)} :
+NDirs(ss, gp) == IF Len(ss) <= 1 /\ gp = 0 THEN (IF Tier = "q" THEN {16, 6} ELSE {16, 6, 10}) ELSE {16}     \* other directory counts on the small layouts
+Layouts(bits) == UNION {{Lay(bits, lf, ss, sl, gp, gq, tr, ce, zp, nd) : zp \in ZPs(ss), nd \in NDirs(ss, gp)} :
                     lf \in LfaNews, ss \in SecSeqs, sl \in Slacks, tr \in Trails, ce \in Certs, gp \in Gaps, gq \in GapPoss}
 MCInit == \E bits \in {32, 64} : \E i \in Layouts(bits) : Start(i)
 
 (* a few layouts with sections larger than 32 KiB (positional reads cross chunk and part boundaries) *)
 BigSecSeqs == UNION {{[k \in 1..n |-> [size |-> sz[k], fpos |-> p[k]]] : sz \in [1..n -> {0, 32773, 70001}], p \in Perms(n)} : n \in 1..2}
 BigInit == \E bits \in {32, 64} : \E ss \in BigSecSeqs, tr \in {0, 3}, ce \in {0, 16} :
-             Start([bits |-> bits, lfanew |-> 64, secs |-> ss, slack |-> 8, gap |-> 0, gappos |-> 1, trail |-> tr, cert |-> ce, zptr |-> "zero"])
+             Start([bits |-> bits, lfanew |-> 64, secs |-> ss, slack |-> 8, gap |-> 0, gappos |-> 1, trail |-> tr, cert |-> ce, zptr |-> "zero", ndirs |-> 16])
 
 (* code -> spec: layouts projected from real files by the harness's independent PE reader *)
 Obs == ndJsonDeserialize("obs.ndjson")
